@@ -67,12 +67,17 @@ extern('QueueStorage.set_timestamp', params={'self': 'QueueStorage', 'id': 'Str'
        yields=True, modifies=['self.rs_ts'], ensures=['self.rs_ts == store(old(self.rs_ts), id, timestamp)'])
 extern('QueueStorage.remove', params={'self': 'QueueStorage', 'id': 'Str'}, yields=True,
        modifies=['self.rs_has'], ensures=['self.rs_has == store(old(self.rs_has), id, False)'])
+klass('QueueStorage', ghost={'last_marks': 'SetV[Int]', 'last_marked_id': 'Opt[Str]', 'n_marks': 'Int'})
 extern('QueueStorage.set_recipients_delivered',
-       params={'self': 'QueueStorage', 'id': 'Str', 'rcpt_indexes': 'List[Int]'}, yields=True,
-       modifies=['self.rs_rcpts', 'self.rs_nrcpts'],
-       requires=['is_list(rcpt_indexes)'],
-       notes='interface type of rcpt_indexes is a list (QueueStorage docstring); RS semantics: positions of the '
-             'envelope last returned by get() are removed')
+       params={'self': 'QueueStorage', 'id': 'Str', 'rcpt_indexes': 'Set[Int]'}, yields=True,
+       modifies=['self.rs_rcpts', 'self.rs_nrcpts', 'self.last_marks', 'self.last_marked_id', 'self.n_marks'],
+       requires=['rcpt_indexes != None',
+                 # idx-in-range: positions of the envelope last returned by get()
+                 'forall(Int, lambda p: implies(p in rcpt_indexes, 0 <= p and p < self.rs_nrcpts[id]))'],
+       ensures=['self.last_marks == setv(rcpt_indexes)', 'self.last_marked_id == id',
+                'self.n_marks == old(self.n_marks) + 1'],
+       notes='RS semantics: the given positions of the envelope last returned by get() are removed; the Queue '
+             'passes a set (the backends must cope with that: their own obligation, C03/C15)')
 extern('QueueStorage.get', params={'self': 'QueueStorage', 'id': 'Str'},
        returns='Tuple[Envelope, Int]', yields=True,
        ensures=['result[0] != None', 'result[0].recipients != None', 'is_list(result[0].recipients)',
@@ -302,6 +307,7 @@ contract('Queue._split_by_reply', module=M, props=['C13', 'C01'],
                   'implies(is_type(replies, List[Reply]), forall(result, lambda g: forall(g[1].recipients, lambda r: '
                   '   exists(range(0, len(envelope.recipients)), lambda i: envelope.recipients[i] == r '
                   '          and cast(replies, List[Reply])[i] == g[0]))))',
+                  'implies(len(envelope.recipients) > 0, len(result) > 0)',
                   # the group replies are the caller's reply objects themselves
                   'implies(is_type(replies, List[Reply]), forall(result, lambda g: '
                   '   exists(range(0, len(envelope.recipients)), lambda i: same(g[0], cast(replies, List[Reply])[i]))))',
@@ -309,7 +315,7 @@ contract('Queue._split_by_reply', module=M, props=['C13', 'C01'],
          modifies=[], locals={'groups': 'List[Tuple[Reply, Envelope]]'},
          loops={0: dict(modifies=['fresh'],
                         inv=['GROUPS_ok(groups, envelope, _k)',
-                             'fresh(groups)',
+                             'fresh(groups)', 'implies(_k > 0, len(groups) > 0)',
                              'forall(range(0, _k), lambda i: implies(trig(i), exists(groups, lambda g: g[0] == replies[i] '
                              '       and envelope.recipients[i] in seq(g[1].recipients))), trigger=lambda i: trig(i))',
                              'forall(groups, lambda g: forall(g[1].recipients, lambda r: '
@@ -337,8 +343,12 @@ contract('Queue._retry_later', module=M, props=['C01', 'C12', 'C13', 'C03'],
                    'implies(is_type(replies, Reply), cast(replies, Reply) != None and cast(replies, Reply).message is not None)'],
          ensures=['INV_timetable(self)',
                   # retry granted: the message is released and scheduled, with the time stamp that was stored
-                  'implies(result, cast(id, Str) in self.queued_ids and id not in self.active_ids '
-                  '        and len(self.bounces) == old(len(self.bounces)) and id not in self.removed or old(id in self.removed))',
+                  'implies(result, id in self.queued_ids and id not in self.active_ids '
+                  '        and len(self.bounces) == old(len(self.bounces)))',
+                  'implies(result, setv(self.removed) == old(setv(self.removed)))',
+                  'implies(not result, id not in self.queued_ids)',
+                  'implies(not result and bool(envelope.sender) and len(envelope.recipients) > 0, '
+                  '        len(self.bounces) > old(len(self.bounces)))',
                   'implies(result and old(id not in self.queued_ids), '
                   '        exists(self.queued, lambda e: e[1] == id and e[0] == self.store.rs_ts[id]))',
                   # retries exhausted: removed, and bounced -- never silently dropped
@@ -358,4 +368,71 @@ contract('Queue._retry_later', module=M, props=['C01', 'C12', 'C13', 'C03'],
                              'implies(bool(envelope.sender), len(self.bounces) == old(len(self.bounces)) + _k)',
                              'forall(range(0, _k), lambda j: implies(bool(envelope.sender), '
                              '       self.bounces[old(len(self.bounces)) + j][0] is _seq0[j][1]))',
+                             'forall(range(0, old(len(self.bounces))), lambda j: same(self.bounces[j], old(seq(self.bounces))[j]))'])})
+
+
+# ---------------------------------------------------------------------------- per-recipient results
+predicate('settled(v)', 'v is None or isinstance(v, Reply) or isinstance(v, PermanentRelayError)')
+predicate('transient(v)', 'isinstance(v, TransientRelayError)')
+predicate('permanent(v)', 'isinstance(v, PermanentRelayError)')
+predicate('RESULTS_ok(results, envelope)',
+          'results != None and envelope != None and envelope.recipients != None '
+          'and forall(envelope.recipients, lambda r: dict_has(results, r)) '
+          'and forall(dict_keys(results), lambda r: r in seq(envelope.recipients)) '
+          'and forall(dict_keys(results), lambda r: implies(isinstance(dict_get(results, r), RelayError), '
+          '      cast(dict_get(results, r), RelayError).reply != None '
+          '      and cast(dict_get(results, r), RelayError).reply.message is not None))')
+
+contract('Queue._handle_partial_relay', module=M, props=['C01', 'C03', 'C13'],
+         params={'self': 'Queue', 'id': 'Str', 'envelope': 'Envelope', 'attempts': 'Int',
+                 'results': 'Dict[Str, RcptResult]'},
+         requires=['QUEUE_ok(self)', 'RESULTS_ok(results, envelope)',
+                   'id in self.active_ids', 'id not in self.queued_ids',
+                   'distinct_by(envelope.recipients, lambda r: r)',
+                   'seq(envelope.recipients) == rs_out(self.store, id)'],
+         ensures=[
+             # C03 marks-exact: when the message stays queued, exactly the settled positions were marked
+             'implies(id in self.queued_ids, self.store.n_marks == old(self.store.n_marks) + 1 '
+             '   and self.store.last_marked_id == id '
+             '   and forall(range(0, len(envelope.recipients)), lambda p: '
+             '        (p in self.store.last_marks) == settled(dict_get(results, envelope.recipients[p]))))',
+             # C01: otherwise the message has been removed (store.remove called or spawned) ...
+             'implies(id not in self.queued_ids, id in self.removed or id not in self.store.rs_has)',
+             # ... and then nobody is left outstanding silently: with transient failures and no retry granted,
+             # and with permanent failures in every case, at least one bounce per kind of failure is spawned
+             # (which recipients each bounce names is the postcondition of _split_by_reply / _retry_later)
+             'implies(id not in self.queued_ids and bool(envelope.sender) '
+             '        and exists(envelope.recipients, lambda r: transient(dict_get(results, r))), '
+             '        len(self.bounces) > old(len(self.bounces)))',
+             'implies(bool(envelope.sender) and exists(envelope.recipients, lambda r: permanent(dict_get(results, r))), '
+             '        len(self.bounces) > old(len(self.bounces)))',
+             'implies(bool(envelope.sender) and exists(envelope.recipients, lambda r: permanent(dict_get(results, r))) '
+             '        and exists(envelope.recipients, lambda r: transient(dict_get(results, r))) and id not in self.queued_ids, '
+             '        len(self.bounces) > old(len(self.bounces)) + 1)',
+             'implies(not bool(envelope.sender), len(self.bounces) == old(len(self.bounces)))'],
+         modifies=['contents(self.queued)', 'contents(self.queued_ids)', 'contents(self.active_ids)',
+                   'self.wake.flag', 'contents(self.removed)', 'contents(self.bounces)',
+                   'self.store.rs_attempts', 'self.store.rs_ts', 'self.store.rs_has', 'self.store.rs_rcpts',
+                   'self.store.rs_nrcpts', 'self.store.last_marks', 'self.store.last_marked_id',
+                   'self.store.n_marks', 'any(Reply).message'],
+         locals={'delivered': 'Set[Int]', 'tempfails': 'List[Tuple[Str, Reply]]',
+                 'permfails': 'List[Tuple[Str, Reply]]'},
+         loops={0: dict(modifies=['fresh'],
+                        inv=['delivered != None and tempfails != None and permfails != None',
+                             'fresh(delivered) and fresh(tempfails) and fresh(permfails)',
+                             'is_list(tempfails) and is_list(permfails) and tempfails is not permfails',
+                             'forall(Int, lambda p: (p in delivered) == (0 <= p and p < len(envelope.recipients) '
+                             '   and dict_index(results, envelope.recipients[p]) < _k '
+                             '   and settled(dict_get(results, envelope.recipients[p]))))',
+                             'forall(tempfails, lambda t: t[1] != None and t[1].message is not None '
+                             '   and dict_has(results, t[0]) and transient(dict_get(results, t[0])))',
+                             'forall(permfails, lambda t: t[1] != None and t[1].message is not None '
+                             '   and dict_has(results, t[0]) and permanent(dict_get(results, t[0])))',
+                             'forall(range(0, _k), lambda j: implies(transient(dict_get(results, dict_keys(results)[j])), len(tempfails) > 0))',
+                             'forall(range(0, _k), lambda j: implies(permanent(dict_get(results, dict_keys(results)[j])), len(permfails) > 0))']),
+                1: dict(modifies=['contents(self.bounces)'],
+                        inv=['implies(not bool(envelope.sender), len(self.bounces) == old(len(self.bounces)))',
+                             'implies(bool(envelope.sender), len(self.bounces) == old(len(self.bounces)) + _k)',
+                             'forall(range(0, _k), lambda j: implies(bool(envelope.sender), '
+                             '       self.bounces[old(len(self.bounces)) + j][0] is _seq1[j][1]))',
                              'forall(range(0, old(len(self.bounces))), lambda j: same(self.bounces[j], old(seq(self.bounces))[j]))'])})
